@@ -131,7 +131,15 @@ func streamResult(ptr, stored []byte, cuts, order []int) string {
 	if p == nil {
 		return "noptr"
 	}
-	return showOB(pgdump.ReassembleTOAST(mkChunks(p.ValueID, stored, cuts, order), p.ValueID, p))
+	out := pgdump.ReassembleTOAST(mkChunks(p.ValueID, stored, cuts, order), p.ValueID, p)
+	// families pglz / lz4 hand over valid compressed values: the result is what the decompressor allocated, and
+	// since fixes/toast/22 that is ONE allocation of exactly the size produced (pglzOutputSize / lz4OutputSize,
+	// which the Lean model does not contain: they only choose a capacity) - a capacity above the length means
+	// the size pass and the decoder disagree
+	if p.IsCompressed && out != nil && cap(out) != len(out) {
+		return fmt.Sprintf("CAP:%d-for-%d-bytes", cap(out), len(out))
+	}
+	return showOB(out)
 }
 
 func showInfo(i *pgdump.TOASTVerboseInfo) string {
@@ -346,17 +354,29 @@ func batch(seed int64, count, maxLen int, method int) string {
 	return strconv.Itoa(fails)
 }
 
-// guarded runs f and reports an allocation out of proportion to the input instead of "ok".
-func guarded(inputLen int, f func()) string {
+// guarded runs f (which returns the number of bytes it got back from the code under test) and reports an allocation
+// out of proportion instead of "ok".  The envelope is the one claimed for C10's resource clause in this area:
+// allocation <= 2*output + 32*input + 1 MiB.  The output itself can be up to 255 times the input (LZ4; 91 for pglz):
+// that is the formats' ratio and what a decompressor must return; what it must not do is allocate a multiple of it
+// (before fixes/toast/22 the results were grown by append: 5.5 times the output).  32 B per input byte covers the
+// tuple / chunk / map structures of ReadTOASTTable and GetTOASTVerboseInfo on a relation file and the
+// concatenation buffer of ReassembleTOAST.
+func guarded(inputLen int, f func() int) string {
 	var m0, m1 runtime.MemStats
 	runtime.ReadMemStats(&m0)
-	f()
+	outLen := f()
 	runtime.ReadMemStats(&m1)
-	if d := m1.TotalAlloc - m0.TotalAlloc; d > uint64(64*inputLen+(1<<20)) {
-		return fmt.Sprintf("ALLOC:%d", d)
+	d := m1.TotalAlloc - m0.TotalAlloc
+	if trace {
+		fmt.Fprintf(os.Stderr, "TRACE toastmut in=%d out=%d alloc=%d\n", inputLen, outLen, d)
+	}
+	if d > uint64(2*outLen+32*inputLen+(1<<20)) {
+		return fmt.Sprintf("ALLOC:%d-for-%d-in-%d-out", d, inputLen, outLen)
 	}
 	return "ok"
 }
+
+var trace = os.Getenv("VERIF_BIG_TRACE") != ""
 
 func init() {
 	// the batch families generate their inputs inside the handler: the case line (a seed) says nothing about
@@ -376,7 +396,8 @@ func init() {
 	core.Register("toastrel", toastrel)
 	// toastties: the same on relations whose live rows repeat a chunk_seq (modes 0 and 1)
 	core.Register("toastties", toastrel)
-	// toastunhinted: the same on relations whose hint bits have not been set yet (open finding C08-unhinted-chunks)
+	// toastunhinted: the same on relations whose tuples are in every header state (unhinted, hinted, frozen, deleted,
+	// aborted, t_xmin 0): PostgreSQL's TOAST visibility rule (finding C08-unhinted-chunks, repaired by fixes/toast/21)
 	core.Register("toastunhinted", toastrel)
 	// toastrel2: args = mode, relidA, fileA, relidB, fileB, pointers — ONE reader holding two relations whose value ids collide
 	core.Register("toastrel2", func(args []string) string {
@@ -460,7 +481,8 @@ func init() {
 			relid64, _ := strconv.ParseUint(args[1], 10, 32)
 			relid := uint32(relid64)
 			file, ptrs := unhex(args[2]), unhex(args[3])
-			return guarded(len(file)+len(ptrs), func() {
+			return guarded(len(file)+len(ptrs), func() int {
+				n := 0
 				chunks := pgdump.ReadTOASTTable(file)
 				pgdump.GetTOASTVerboseInfo(relid, file)
 				r0 := pgdump.NewTOASTReader()
@@ -468,22 +490,24 @@ func init() {
 				r.LoadTOASTTable(relid, file)
 				for _, pb := range split18(ptrs) {
 					pgdump.IsTOASTPointer(pb)
-					r0.ReadValue(pb)
-					r.ReadValue(pb)
+					n += len(r0.ReadValue(pb))
+					n += len(r.ReadValue(pb))
 					if p := pgdump.ParseTOASTPointer(pb); p != nil {
-						pgdump.ReassembleTOAST(chunks, p.ValueID, p)
-						pgdump.ReassembleTOAST(chunks, p.ValueID, nil)
+						n += len(pgdump.ReassembleTOAST(chunks, p.ValueID, p))
+						n += len(pgdump.ReassembleTOAST(chunks, p.ValueID, nil))
 					}
 				}
+				return n
 			})
 		default:
 			ptr, stored := unhex(args[1]), unhex(args[2])
 			cuts, order := parseNats(args[3]), parseNats(args[4])
-			return guarded(len(ptr)+len(stored), func() {
+			return guarded(len(ptr)+len(stored), func() int {
 				pgdump.IsTOASTPointer(ptr)
 				if p := pgdump.ParseTOASTPointer(ptr); p != nil {
-					pgdump.ReassembleTOAST(mkChunks(p.ValueID, stored, cuts, order), p.ValueID, p)
+					return len(pgdump.ReassembleTOAST(mkChunks(p.ValueID, stored, cuts, order), p.ValueID, p))
 				}
+				return 0
 			})
 		}
 	})
